@@ -102,6 +102,7 @@ type Spec struct {
 	Consumes       []string
 	Produces       []string
 	GlobalSecurity [][]string
+	GenFlags       []string // extra flags for generate server / client
 	BasePath       string
 	// Extra: operations (path -> method -> operation object) that are generated and compiled but never called:
 	// nested array parameters in every location, outside the fragment of the binding model
@@ -478,6 +479,13 @@ func (g *gen) nestedParam(in, name string) PSpec {
 		p.Unique = true
 	}
 	p.Required = g.r.Chance(1, 3)
+	if !p.Required && g.r.Chance(1, 2) {
+		// a default for the whole array of arrays: what the reference binder reads from a valid request value
+		if ok, v := refBind(&p, rawList(&p, g.r), true); ok && v != nil {
+			p.Default = v
+			g.hit("nested-request:default")
+		}
+	}
 	lf := p.Inner.leaf()
 	g.hit(fmt.Sprintf("nested-request:param:%s:depth=%d:leaf=%s:%s", in, depth+1, lf.Type, lf.Format))
 	if p.Unique {
@@ -608,6 +616,13 @@ func (g *gen) spec(nops int, variant int) *Spec {
 		sp.GlobalSecurity = [][]string{{"key"}}
 		g.hit("security:global")
 	}
+	if variant%3 == 2 {
+		// a global requirement with two schemes (both must authenticate), one of which no operation names itself;
+		// generated with the documented pre-processing option that prunes what nothing refers to
+		sp.GlobalSecurity = [][]string{{"qkey", "basic"}}
+		sp.GenFlags = []string{"--with-flatten=remove-unused"}
+		g.hit("security:global-and+flatten-remove-unused")
+	}
 	if variant%4 == 2 {
 		sp.BasePath = "/api"
 	}
@@ -660,6 +675,11 @@ func (g *gen) spec(nops int, variant int) *Spec {
 		if g.r.Chance(1, 2) {
 			op.Responses = append(op.Responses, RSpec{Code: 201})
 		}
+		if g.r.Chance(1, 3) {
+			// success codes are the 2xx range, registered with IANA or not
+			op.Responses = append(op.Responses, RSpec{Code: []int{250, 299}[g.r.Intn(2)], Body: g.r.Chance(1, 2)})
+			g.hit("response:unregistered-2xx")
+		}
 		if g.r.Chance(2, 3) {
 			op.Responses = append(op.Responses, RSpec{Code: 404, Body: g.r.Chance(1, 2)})
 		}
@@ -668,6 +688,9 @@ func (g *gen) spec(nops int, variant int) *Spec {
 			g.hit("response:default")
 		}
 		sh := secShapes[g.r.Intn(len(secShapes))]
+		if variant%3 == 2 && len(sh) == 1 && len(sh[0]) == 1 && sh[0][0] == "qkey" {
+			sh = [][]string{{"basic"}} // qkey is named by the global requirement only
+		}
 		if sh != nil {
 			op.HasSecurity = true
 			op.Security = sh
